@@ -111,7 +111,8 @@ def task_rectgeo(shape, atm, conv, conv2=None, free=(), snap='off', fix=None, pr
             data = dict(cfg, label=label,
                         inputs={k: [val(x) for x in v] for k, v in inp.items()},
                         surfaces=[val(s) for s in surfaces], bvol=val(bvol))
-            failures.append(dict(key='%s/atm%d/%s%s' % (shape_class(shape), atm, _slug(label), extra_key), what=what, replay=data))
+            bkey = '/boundary-bottom' if boundary == 'bottom' else ''     # round 4: input class of the new boundary shapes
+            failures.append(dict(key='%s/atm%d%s/%s%s' % (shape_class(shape), atm, bkey, _slug(label), extra_key), what=what, replay=data))
 
         # ---- forward conversion (C04's subject; here it only produces the input of rectgeo)
         geo, _ = GB.build(M, 'rect', inp, conv, atm, None, mesh)
@@ -297,10 +298,21 @@ def catalogue(tier):
     add(shape=(2, 2, 2), atm=2, conv=0, free=[], boundary='side')
     add(shape=(2, 2, 2), atm=2, conv=0, free=[], boundary='top')
     add(shape=(2, 1, 2), atm=0, conv=1, free=[0], boundary='side')
+    # (3d) round 4: a different naming convention for the new geometry with one atmosphere block PER COLUMN
+    #      (the block map must then rename the atmosphere blocks in fromgeo(geo', blockmap) as well)
+    add(shape=(2, 1, 2), atm=1, conv=1, conv2=0, free=[1])
+    add(shape=(1, 2, 2), atm=1, conv=0, conv2=2, free=[0])
+    # (3c) round 4: inactive boundary blocks UNDER the bottom layer (centre below every rock block)
+    add(shape=(2, 2, 2), atm=2, conv=0, free=[], boundary='bottom')
+    add(shape=(2, 1, 2), atm=0, conv=1, free=[0], boundary='bottom')
     if quick: return T
     # ---- thorough only
     add_split(1, shape=(2, 2, 2), atm=1, conv=3, free=[1], boundary='side')
     add_split(1, shape=(2, 2, 2), atm=2, conv=2, free=[2], boundary='top')
+    add_split(1, shape=(2, 2, 2), atm=1, conv=3, free=[1], boundary='bottom')
+    add_split(1, shape=(2, 2, 2), atm=1, conv=2, conv2=1, free=[2])
+    add_split(1, shape=(2, 2, 2), atm=0, conv=3, conv2=0, free=[0])
+    add(shape=(1, 2, 2), atm=2, conv=2, free=[0], boundary='bottom')
     # (boundary blocks on TOP only together with atmosphere type 2: with an atmosphere block AND a boundary
     #  block above the same column, which of the two huge-volume blocks rectgeo takes for the atmosphere is
     #  ambiguous - it follows the iteration order of a set of connection names, i.e. the string hash seed -
@@ -351,11 +363,15 @@ def run(tier, seed, rep):
         'atmosphere types 0/1/2 (the same type is passed to rectgeo), all 4 naming conventions for the original geometry, '
         'the reconstructed geometry named with the same or a different convention',
         'layer_snap = 0 (exact inverse) and the default 0.1 (with the assumption that no surface block is thinner than that)',
+        'inactive boundary blocks (volume 0 or >= 1e25: solver\'s choice; one per face block / column): beside the x-max face, on top of '
+        'every column (atmosphere type 2 only), under the bottom block of every column (round 4); every atmosphere type also with a '
+        'non-identity name map (conv2 != conv, round 4)',
     ]
     rep.outside += [
         'non-zero rotation (needs asin / cos / sin of symbolic arguments)',
         'sizes beyond 3x3x3 (the quantifier goes to 12x12x14); more than ' + ('two' if quick else 'three') + ' stepped columns',
-        'inactive (zero- or huge-volume) boundary blocks and remove_inactive=True',
+        'remove_inactive=True; inactive boundary blocks in arrangements other than the three listed under bounds (e.g. an atmosphere block '
+        'AND a huge-volume boundary block above the same column: which of the two rectgeo takes for the atmosphere is ambiguous)',
         'the data-file round trip between fromgeo and rectgeo (t2data write/read is property C01)',
         'grids whose atmosphere volume / atmosphere connection distance differ from the library defaults: rectgeo builds the new '
         'geometry with the defaults, so those two numbers are not reproduced (agreed with the coordinator: a stated assumption)',
